@@ -134,6 +134,12 @@ front end; `enum+fwsim` executes the emitted sketch on the recording Arduino moc
    lemma) must still be generated. None of this changes what is proved: the obligations are generated from the new source and must all
    discharge; each tolerance was checked with a deliberately broken version of the refactored function (violation reported).
    A refactoring that introduces a new loop needing a new invariant remains `UNDECIDED` (exit 2) - re-annotation is the price of the family.
+14a. **Per-pin level traces in the device differential.** The host Led / RGBLed classes are observed at their single points of change
+   (`set_brightness`, `set_color`: `P:<pin>:<level>`), the firmware at its writes (`W:<pin>:<level>`); per pin the two sequences of level
+   *changes* must agree to within one PWM count. Getters and delays alone had missed a fade that jumps to its target when the per-step
+   delay rounds to zero. Delays between two other events are compared as a block: the device may drop a delay under 1 ms and round the
+   others by less than 1 ms each, so the number of delays of at least 1 ms and the block's total (to within one millisecond per delay)
+   must agree.
 14. **Emission concatenativity and scope independence** (`progs/concat.py`; C04/C16/C17). The fragment contracts speak about one IR node;
    these bounded obligations tie "one node" to "a program": the firmware trace of `a; b` is the trace of `a` followed by that of `b`, and a
    command inside a helper, branch or loop behaves as at top level (getter values included).
@@ -238,8 +244,8 @@ was traced to something the check did not cover (literal-argument resolution in 
 program shapes missing from a corpus, an engine gap) and the check was extended - the table shows the state after that.
 Later rounds (k = 5..10, and 11, 12 where present) were handled the same way; before each matrix run the author notes of the new seeds were
 read and the checks extended *pre-emptively* for the classes of change they describe, so the first-pass figures are not blind:
-round 3: 31 of 40 at first pass, round 4: 15 of 40 (no pre-emptive edits), round 5: 32 of 40, round 6: 19 of 40 and round 7: 20 of 40
-(both without pre-emptive edits; the authors were told every idea already taken, so each round is harder than the one before). The recurring causes of a miss were (1) a
+round 3: 31 of 40 at first pass, round 4: 15 of 40 (no pre-emptive edits), round 5: 32 of 40, round 6: 19 of 40, round 7: 20 of 40 and round 8: 20 of 40
+(all three without pre-emptive edits; the authors were told every idea already taken, so each round is harder than the one before). The recurring causes of a miss were (1) a
 program *shape* absent from a bounded corpus (re-declared devices, two displays of one class, re-specialised helper variants, a name re-used
 in another role by a later transpilation, arguments written with parentheses or calls), (2) parser-level argument resolution that the
 fragment contracts bypass by construction, (3) state outside the modelled frame. Each produced a new *family* of obligations (enumerated
